@@ -63,13 +63,23 @@ def main():
             print('PATCH DOES NOT APPLY:\n' + out)
             return 2
         demo = os.path.join(seed, 'demo.py')
-        rc, out = run(['/venv/bin/python', '-c', HELPER, demo, clean])
-        res['demo_clean_exit'] = rc
-        rc2, out2 = run(['/venv/bin/python', '-c', HELPER, demo, patched])
-        res['demo_patched_exit'] = rc2
-        res['demo_patched_output_tail'] = out2[-600:]
-        rc3, out3 = run(['/venv/bin/python', '-c', PYTEST], cwd=patched)
-        res['suite_with_patch'] = out3.strip().split('\n')[-1]
+        prev = meta.get('confirmed') or {}
+        fast = os.environ.get('TRY_SEED_FAST') == '1' and prev.get('valid_seed')
+        if fast:
+            # the seed was validated when it was stored (demo on clean / patched copy, suite on the patched copy): only the
+            # property's check is re-run against the current machinery
+            for k in ('demo_clean_exit', 'demo_patched_exit', 'demo_patched_output_tail', 'suite_with_patch', 'valid_seed'):
+                res[k] = prev.get(k)
+            rc, rc2 = res['demo_clean_exit'], res['demo_patched_exit']
+        else:
+            rc, out = run(['/venv/bin/python', '-c', HELPER, demo, clean])
+        if not fast:
+            res['demo_clean_exit'] = rc
+            rc2, out2 = run(['/venv/bin/python', '-c', HELPER, demo, patched])
+            res['demo_patched_exit'] = rc2
+            res['demo_patched_output_tail'] = out2[-600:]
+            rc3, out3 = run(['/venv/bin/python', '-c', PYTEST], cwd=patched)
+            res['suite_with_patch'] = out3.strip().split('\n')[-1]
         for f in ('xtuml', 'bridgepoint'):
             for n in os.listdir(os.path.join(patched, f)):
                 if n.startswith('__') and n.endswith('tab.py'):
@@ -92,7 +102,8 @@ def main():
             d = os.path.join(VERIF, 'seeded', keep)
             os.makedirs(d, exist_ok=True)
             for f in ('patch.diff', 'demo.py'):
-                shutil.copy(os.path.join(seed, f), os.path.join(d, f))
+                if os.path.abspath(os.path.join(seed, f)) != os.path.abspath(os.path.join(d, f)):
+                    shutil.copy(os.path.join(seed, f), os.path.join(d, f))
             meta['confirmed'] = res
             meta['what_was_run'] = ('tools/try_seed.py: demo on clean and patched scratch copies of /repo, repository test suite on the '
                                     'patched copy, ./check with PYXTUML_REPO=<patched copy>')
